@@ -46,5 +46,68 @@ def lines (root start : T) (sp : List Nat) (render : T → String) (segs : List 
     let self := if addSelf && sp != [] then [(sp, start)] else []
     some ((self ++ belowWithPaths start sp).map fun (p, n) => String.join (prefixParts root s6 lstrip p n) ++ render n)
 
+
+/-! ### additions for C16: uniform widths, shapes, decoding of prefixes -/
+
+abbrev Segs6 := String × String × String × String × String × String
+
+/-- the two ancestor segments have the same non-zero width, and all own connectors have the same width. -/
+def UniformWidths (s : Segs6) : Prop :=
+  s.1.length = s.2.1.length ∧ 0 < s.1.length ∧ s.2.2.1.length = s.2.2.2.1.length ∧
+    s.2.2.2.2.1.length = s.2.2.1.length ∧ s.2.2.2.2.2.length = s.2.2.1.length
+
+instance (s : Segs6) : Decidable (UniformWidths s) := by unfold UniformWidths; infer_instance
+
+/-- the shape of a tree: all data erased. -/
+inductive Shape where
+  | node (kids : List Shape)
+deriving Repr, Inhabited
+
+mutual
+/-- erase the data of a tree. -/
+def shapeOf : T → Shape
+  | .node _ ks => .node (shapeOfL ks)
+def shapeOfL : List T → List Shape
+  | [] => []
+  | t :: ts => shapeOf t :: shapeOfL ts
+end
+
+/-- 0-based depth (relative to the first level that carries a connector) of a line, from the
+length of its prefix: `prefixLen = depth * width(s0) + width(s2)`. -/
+def decodeDepth (s6 : Segs6) (prefixLen : Nat) : Nat := (prefixLen - s6.2.2.1.length) / s6.1.length
+
+/-- variant for `add_self=False`, where the first printed level has an *empty* prefix and the
+second level has a bare connector: depth 0 iff the prefix is empty. -/
+def decodeDepth0 (s6 : Segs6) (prefixLen : Nat) : Nat :=
+  if prefixLen = 0 then 0 else decodeDepth s6 prefixLen + 1
+
+/-- parse a forest of level `d` from a pre-order depth list: an entry `≥ d` starts a node, whose
+children are parsed at level `d + 1` from what follows; an entry `< d` ends the forest.
+Returns the forest and the unconsumed rest.  `fuel ≥ length` suffices. -/
+def parseForest : Nat → Nat → List Nat → List Shape × List Nat
+  | 0, _, ds => ([], ds)
+  | _ + 1, _, [] => ([], [])
+  | fuel + 1, d, x :: ds =>
+    if d ≤ x then
+      let r1 := parseForest fuel (d + 1) ds
+      let r2 := parseForest fuel d r1.2
+      (Shape.node r1.1 :: r2.1, r2.2)
+    else ([], x :: ds)
+
+/-- rebuild a forest from its pre-order depth list (depth 0 = top level). -/
+def shapeOfDepths (ds : List Nat) : List Shape := (parseForest ds.length 0 ds).1
+
+/-- decode an ancestor segment: is that ancestor a last sibling? (needs `s0 ≠ s1`) -/
+def decodeAnc (s6 : Segs6) (seg : String) : Bool := seg == s6.1
+
+/-- decode the own connector into (is-last, has-children)
+(needs `s2, s3, s4, s5` pairwise distinct: the compact 6-segment styles). -/
+def decodeOwn (s6 : Segs6) (own : String) : Bool × Bool :=
+  (own == s6.2.2.1 || own == s6.2.2.2.2.1, own == s6.2.2.2.2.1 || own == s6.2.2.2.2.2)
+
+/-- decode the own connector into is-last (needs `{s2, s4}` disjoint from `{s3, s5}`;
+for 4-segment styles: `s2 ≠ s3`). -/
+def decodeOwnLast (s6 : Segs6) (own : String) : Bool := own == s6.2.2.1 || own == s6.2.2.2.2.1
+
 end Fmt.Spec
 end Nutree
